@@ -54,6 +54,12 @@ def install():
                                   for f in ri.unconstrained()],
                 "bound_m": bound_m, "ri": ri}
         _state["calls"].append(call)
+        cb = _state.get("fm_paths_cb")
+        if cb is not None:
+            try:
+                _state.setdefault("fm_path_snap", {}).update(cb())      # lists are at their pre-allocated length here
+            except Exception:
+                pass
         return orand(self, ri, bound_m)
     RZ.Randomizer.randomize = randomize
     _installed[0] = True
@@ -368,6 +374,8 @@ def build_ref(world, op, perturb=None, softs=None):
     P.clear_used(world.shadow)
     roots = call_roots(op)
     for rp in roots:
+        _extend_randsz(world, P.get_node(world.shadow, rp))
+    for rp in roots:
         P.mark_used_rand(P.get_node(world.shadow, rp), True, 0)
     env = R.Env(world.prog, world.shadow, (), {}, perturb)
     # values that pre_randomize assigns (on objects that are random in the call) are what the solver must see
@@ -386,6 +394,83 @@ def build_ref(world, op, perturb=None, softs=None):
     env.refc = refc
     env.pre_sets = pre_sets
     return z3.And(refc, R.type_domain(env)), env
+
+
+LIST_BOUND = 4
+
+
+def _extend_randsz(world, node):
+    """a random-size scalar list may end up with any size its constraints admit: give the reference element variables up
+    to the bound (programs constrain size <= LIST_BOUND); elements at or beyond the final size are phantoms"""
+    if node["k"] == "o":
+        for ch in node["fields"].values():
+            _extend_randsz(world, ch)
+    elif node["k"] == "l":
+        if node["randsz"] and node["elem"][0] != "obj":
+            while len(node["elems"]) < LIST_BOUND:
+                node["elems"].append(P.mk_elem(world.prog, node["elem"], node["rand"]))
+        for ch in node["elems"]:
+            _extend_randsz(world, ch)
+
+
+def phantom_groups(world, env):
+    """[(size var, index, [element variable names])] for every random-size list that is random in the call"""
+    out = []
+
+    def walk(node, path):
+        if node["k"] == "o":
+            for fn, ch in node["fields"].items():
+                if ch["k"] != "rl":
+                    walk(ch, path + (fn,))
+        elif node["k"] == "l":
+            if node.get("size_used"):
+                sz, _, _ = env.leaf_term(path + ("size",))
+                for i, ch in enumerate(node["elems"]):
+                    names = [R.vname(p) for p, n in P.walk_leaves(ch, path + (i,)) if R.vname(p) in env.vars]
+                    out.append((sz, i, names))
+            for i, ch in enumerate(node["elems"]):
+                walk(ch, path + (i,))
+    walk(world.shadow, ())
+    return out
+
+
+def list_facade_findings(world):
+    """len(), size, indexing and iteration agree on every list of the tree (observation on the real objects)"""
+    out = []
+
+    def walk(node, path):
+        if node["k"] == "o":
+            for fn, ch in node["fields"].items():
+                if ch["k"] != "rl":
+                    walk(ch, path + (fn,))
+        elif node["k"] == "l":
+            try:
+                lst = world.real(path)
+                n = len(lst)
+                sz = int(lst.size)
+                it = list(lst)
+                if not (n == sz == len(it)):
+                    out.append("%s: len()=%d size=%d iteration yields %d elements" % (R.vname(path), n, sz, len(it)))
+                elif node["elem"][0] in ("u", "s"):
+                    for i in range(n):
+                        if int(lst[i]) != int(it[i]):
+                            out.append("%s: l[%d]=%d but iteration yields %d" % (R.vname(path), i, int(lst[i]), int(it[i])))
+                    if len(node["elems"]) == n:
+                        exp = [ch["val"] for ch in node["elems"]]
+                        if exp != [int(x) for x in it] and node.get("_expect_vals"):
+                            out.append("%s: exposes %s, expected %s" % (R.vname(path), [int(x) for x in it], exp))
+                    elif node.get("_expect_vals"):
+                        out.append("%s: exposes %d elements, expected %d" % (R.vname(path), n, len(node["elems"])))
+                elif node["elem"][0] == "obj":
+                    for i in range(n):
+                        if lst[i] is not it[i]:
+                            out.append("%s: l[%d] is not the object iteration yields" % (R.vname(path), i))
+            except Exception as e:
+                out.append("%s: list access raised %s: %s" % (R.vname(path), type(e).__name__, str(e)[:100]))
+            for i, ch in enumerate(node["elems"]):
+                walk(ch, path + (i,))
+    walk(world.shadow, ())
+    return out
 
 
 def _apply_pre_sets(world, node, path, pre_sets):
@@ -556,6 +641,16 @@ def run_program(spec):
                 out["error"] = "op %d %s: %s: %s" % (oi, op[0], type(e).__name__, e)
                 out["trace"] = traceback.format_exc()[-2000:]
                 return out
+            if opts.get("check_lists") and op[0].startswith("list_"):
+                node = P.get_node(world.shadow, tuple(op[1]))
+                node["_expect_vals"] = True
+                with _quiet():
+                    lf = list_facade_findings(world)
+                node["_expect_vals"] = False
+                for w in lf:
+                    out["findings"].append({"kind": "list_facade", "what": "after op %d %s: %s" % (oi, op, w), "op": oi, "call": op})
+                with _quiet():
+                    world.sync_shadow_values()
             if not opts.get("check_idle"):
                 continue
         else:
@@ -593,11 +688,15 @@ def decide_call(world, spec, oi, op, q, opts, SolveFailure):
     _state["calls"].clear()
     if "EVENTS" in world.ns:
         del world.ns["EVENTS"][:]
+    _state["fm_paths_cb"] = world.fm_paths
+    _state["fm_path_snap"] = {}
     with _quiet():
         exc = _do_call(world, op)
+    _state["fm_paths_cb"] = None
     instances = list(M.MirrorBoolector.instances)
     try:
-        fm_path = world.fm_paths()
+        fm_path = dict(_state.get("fm_path_snap") or {})
+        fm_path.update(world.fm_paths())
     except Exception as e:
         return {"summary": {"op": oi, "error": "fm_paths: %s" % e}, "findings": [
             {"kind": "harness", "what": "cannot map model fields to paths: %s" % e}], "fatal": True}
@@ -637,7 +736,25 @@ def decide_call(world, spec, oi, op, q, opts, SolveFailure):
         if r1 == "sat":
             finding("under_constrained", "the asserted hard formula admits values that violate the reference constraints",
                     witness=model_values(m1, env.vars))
-        r2, m2 = q.check(ref, z3.Not(A))
+        ph = phantom_groups(world, env)
+        if ph:
+            # elements at or beyond the final size are not user-visible: the library may constrain them as it likes.
+            # over-constraint = a visible solution for which NO choice of the invisible elements satisfies the asserted formula
+            primed = {}
+            agree = []
+            for sz, i, names in ph:
+                for nm in names:
+                    v = env.vars[nm]
+                    if nm not in primed:
+                        primed[nm] = z3.BitVec(nm + "'", v.size())
+                    agree.append(z3.Implies(z3.ULT(z3.BitVecVal(i, 32), sz), primed[nm] == v))
+            if primed:
+                A2 = z3.substitute(A, *[(env.vars[nm], pv) for nm, pv in primed.items()])
+                r2, m2 = q.check(ref, z3.ForAll(list(primed.values()), z3.Not(z3.And(z3.And(*agree), A2))))
+            else:
+                r2, m2 = q.check(ref, z3.Not(A))
+        else:
+            r2, m2 = q.check(ref, z3.Not(A))
         summary["q2"] = r2
         if r2 == "sat":
             finding("over_constrained", "the asserted hard formula excludes values that satisfy the reference constraints",
@@ -683,6 +800,12 @@ def decide_call(world, spec, oi, op, q, opts, SolveFailure):
                 if rr == "unsat":
                     finding("returned_values_violate", "the values returned violate the reference constraints",
                             returned={R.vname(p): v for p, v in after.items()})
+        if opts.get("check_lists"):
+            with _quiet():
+                world.sync_shadow_values()
+                lf = list_facade_findings(world)
+            for w in lf:
+                finding("list_facade", w)
         # non-random leaves keep their values
         changed = []
         for path, n in P.walk_leaves(world.shadow):
@@ -775,8 +898,18 @@ def replay_finding(spec, finding):
         ref, env = build_ref(world, op)
         if kind in ("under_constrained", "over_constrained", "spurious_failure"):
             pins = []
-            for nm, v in finding["witness"].items():
+            wit = finding["witness"]
+            for nm, v in wit.items():
                 path = _path_of(world, nm)
+                # elements at or beyond the (pinned) size of a random-size list are not user-visible: never pinned
+                skip = False
+                for j, pe in enumerate(path):
+                    if isinstance(pe, int):
+                        szn = R.vname(tuple(path[:j]) + ("size",))
+                        if szn in wit and pe >= wit[szn]:
+                            skip = True
+                if skip:
+                    continue
                 try:
                     node = P.get_node(world.shadow, path) if path[-1] != "size" else None
                 except Exception:
@@ -805,7 +938,31 @@ def replay_finding(spec, finding):
                         after = world.snapshot()
                     return True, "pinned to %s the call returned normally with %s although these values violate the constraints" % (
                         finding["witness"], {R.vname(p): v for p, v in after.items()})
-                return False, "pinned call raised %s" % type(exc).__name__
+                # pinning changes what the library sees (e.g. a pinned list size is solved first); fall back to observing
+                # the unpinned call: some draw must return values that violate the reference
+                pin_info = "pinned call raised %s" % type(exc).__name__
+                for attempt in range(30):
+                    with _quiet():
+                        world.sync_shadow_values()
+                    ref2, env2 = build_ref(world, op)
+                    with _quiet():
+                        exc2 = _do_call(world, op)
+                    if exc2 is not None:
+                        continue
+                    with _quiet():
+                        after = world.snapshot()
+                    vals = []
+                    for nm, v in env2.vars.items():
+                        pth = _path_of(world, nm)
+                        if pth in after and isinstance(after[pth], int):
+                            vals.append((v, z3.BitVecVal(after[pth], v.size())))
+                    s2 = z3.Solver()
+                    s2.set("timeout", 10000)
+                    s2.add(z3.substitute(ref2, *vals) if vals else ref2)
+                    if s2.check() == z3.unsat:
+                        return True, "unpinned call returned %s which violates the constraints (%s)" % (
+                            {R.vname(p_): v_ for p_, v_ in after.items()}, pin_info)
+                return False, pin_info + "; no violating draw in 30 unpinned calls"
             else:
                 if exc is not None:
                     return True, "pinned to the legal solution %s the call raised %s: %s" % (
